@@ -166,10 +166,11 @@ type State struct {
 	panicking bool
 	panicVal  *Sym
 	steps     int
+	params    map[*ssa.Parameter]*Sym // root parameters (shared, read-only)
 }
 
 func (st *State) clone() *State {
-	n := &State{panicking: st.panicking, panicVal: st.panicVal, steps: st.steps}
+	n := &State{panicking: st.panicking, panicVal: st.panicVal, steps: st.steps, params: st.params}
 	n.frames = make([]*Frame, len(st.frames))
 	for i, f := range st.frames {
 		nf := *f
@@ -301,10 +302,11 @@ func Run(cfg Config, fn *ssa.Function) ([]*Path, *Interp, error) {
 		cfg.MaxSteps = 200000
 	}
 	in := &Interp{cfg: cfg, consts: map[ssa.Value]*Sym{}, root: fn}
-	st := &State{abs: map[*Sym]Abs{}, cells: map[*Sym]*Sym{}, canon: map[ckey]*Sym{}}
+	st := &State{abs: map[*Sym]Abs{}, cells: map[*Sym]*Sym{}, canon: map[ckey]*Sym{}, params: map[*ssa.Parameter]*Sym{}}
 	var args []*Sym
 	for _, p := range fn.Params {
 		s := in.newSym(&Sym{Kind: KParam, V: p, Typ: p.Type()})
+		st.params[p] = s
 		if a, ok := cfg.ParamAbs[p.Name()]; ok {
 			st.abs[s] = a
 		}
